@@ -110,3 +110,310 @@ Section Maps.
     - exact IH.
   Qed.
 End Maps.
+
+(** * Status order *)
+
+Lemma status_leb_refl (s : status) : status_leb s s = true.
+Proof. destruct s; reflexivity. Qed.
+
+Lemma status_leb_trans (a b c : status) :
+  status_leb a b = true -> status_leb b c = true -> status_leb a c = true.
+Proof. destruct a, b, c; cbn; congruence. Qed.
+
+Lemma status_leb_Computed (s : status) : status_leb Computed s = true -> s = Computed.
+Proof. destruct s; cbn; congruence. Qed.
+
+Lemma smax_ge_l (a b : status) : status_leb a (smax a b) = true.
+Proof. destruct a, b; reflexivity. Qed.
+
+Lemma smax_ge_r (a b : status) : status_leb b (smax a b) = true.
+Proof. destruct a, b; reflexivity. Qed.
+
+Lemma smax_lub (a b c : status) :
+  status_leb a c = true -> status_leb b c = true -> status_leb (smax a b) c = true.
+Proof. destruct a, b, c; cbn; congruence. Qed.
+
+(** * Element store *)
+
+Lemma upd_length {A : Type} (i : nat) (x : A) (l : list A) : length (upd i x l) = length l.
+Proof.
+  revert i. induction l as [|y r IH]; intros i; [destruct i; reflexivity|].
+  destruct i; cbn [upd length]; [reflexivity|]. rewrite IH. reflexivity.
+Qed.
+
+Lemma nth_error_upd_same {A : Type} (i : nat) (x : A) (l : list A) :
+  (i < length l)%nat -> nth_error (upd i x l) i = Some x.
+Proof.
+  revert i. induction l as [|y r IH]; intros i H; cbn [length] in H; [lia|].
+  destruct i; cbn [upd nth_error]; [reflexivity|]. apply IH. lia.
+Qed.
+
+Lemma nth_error_upd_other {A : Type} (i j : nat) (x : A) (l : list A) :
+  i <> j -> nth_error (upd i x l) j = nth_error l j.
+Proof.
+  revert i j. induction l as [|y r IH]; intros i j H; [destruct i; reflexivity|].
+  destruct i, j; cbn [upd nth_error]; try reflexivity; [congruence|]. apply IH. congruence.
+Qed.
+
+(** statuses only grow, indices of elements never change *)
+Definition store_le (el el' : estore) : Prop :=
+  length el = length el' /\
+  forall e q s, nth_error el e = Some (q, s) ->
+                exists s', nth_error el' e = Some (q, s') /\ status_leb s s' = true.
+
+Lemma store_le_refl (el : estore) : store_le el el.
+Proof.
+  split; [reflexivity|]. intros e q s H. exists s. split; [exact H|apply status_leb_refl].
+Qed.
+
+Lemma store_le_trans (a b c : estore) : store_le a b -> store_le b c -> store_le a c.
+Proof.
+  intros [L1 H1] [L2 H2]. split; [congruence|].
+  intros e q s H. destruct (H1 e q s H) as [s1 [E1 O1]]. destruct (H2 e q s1 E1) as [s2 [E2 O2]].
+  exists s2. split; [exact E2|]. eapply status_leb_trans; eassumption.
+Qed.
+
+Lemma store_le_upd (el : estore) (e : nat) (q : quad) (s s' : status) :
+  nth_error el e = Some (q, s) -> status_leb s s' = true -> store_le el (upd e (q, s') el).
+Proof.
+  intros H O. split; [symmetry; apply upd_length|].
+  intros e' q' s0 H'. destruct (Nat.eq_dec e e') as [E|N].
+  - subst e'. rewrite H in H'. inversion H'. subst q' s0. exists s'. split; [|exact O].
+    apply nth_error_upd_same. apply nth_error_Some. congruence.
+  - exists s0. split; [|apply status_leb_refl]. rewrite nth_error_upd_other by exact N. exact H'.
+Qed.
+
+Lemma prepare_elem_le (e : nat) (el el' : estore) (o : cout) :
+  prepare_elem e el = (el', o) -> store_le el el'.
+Proof.
+  unfold prepare_elem. destruct (nth_error el e) as [[q s]|] eqn:E.
+  - destruct s; intros H; inversion H; subst; try apply store_le_refl.
+    eapply store_le_upd; [exact E|reflexivity].
+  - intros H. inversion H. apply store_le_refl.
+Qed.
+
+Lemma compute_elem_le (e : nat) (el el' : estore) (o : cout) :
+  compute_elem e el = (el', o) -> store_le el el'.
+Proof.
+  unfold compute_elem. destruct (nth_error el e) as [[q s]|] eqn:E.
+  - destruct s; intros H; inversion H; subst; try apply store_le_refl.
+    eapply store_le_upd; [exact E|reflexivity].
+  - intros H. inversion H. apply store_le_refl.
+Qed.
+
+Lemma run_seq_le (f : nat -> estore -> estore * cout) :
+  (forall e el el' o, f e el = (el', o) -> store_le el el') ->
+  forall ids el el' o, run_seq f ids el = (el', o) -> store_le el el'.
+Proof.
+  intros Hf. induction ids as [|e r IH]; intros el el' o H; cbn [run_seq] in H.
+  - inversion H. apply store_le_refl.
+  - destruct (f e el) as [el1 o1] eqn:E. pose proof (Hf _ _ _ _ E) as L1.
+    destruct o1; try (inversion H; subst; exact L1).
+    eapply store_le_trans; [exact L1|]. eapply IH. exact H.
+Qed.
+
+(** prepare() over a list of existing elements never throws and leaves every one of them at least Prepared *)
+Lemma run_seq_prepare (ids : list nat) :
+  forall el el' o,
+  run_seq prepare_elem ids el = (el', o) ->
+  (forall e, In e ids -> (e < length el)%nat) ->
+  o = OUnit /\
+  forall e, In e ids -> exists q s, nth_error el' e = Some (q, s) /\ status_leb Prepared s = true.
+Proof.
+  induction ids as [|e r IH]; intros el el' o H V; cbn [run_seq] in H.
+  - inversion H. split; [reflexivity|]. intros e [].
+  - destruct (prepare_elem e el) as [el1 o1] eqn:E.
+    pose proof (prepare_elem_le _ _ _ _ E) as L1.
+    assert (Ve : (e < length el)%nat) by (apply V; left; reflexivity).
+    assert (P1 : o1 = OUnit /\ exists q s, nth_error el1 e = Some (q, s) /\ status_leb Prepared s = true).
+    { unfold prepare_elem in E. destruct (nth_error el e) as [[q s]|] eqn:En.
+      - destruct s; inversion E; subst; (split; [reflexivity|]).
+        + exists q, Prepared. split; [|reflexivity]. apply nth_error_upd_same. exact Ve.
+        + exists q, Prepared. split; [exact En|reflexivity].
+        + exists q, Computed. split; [exact En|reflexivity].
+      - apply nth_error_None in En. lia. }
+    destruct P1 as [-> [q [s [En O]]]].
+    assert (V1 : forall e', In e' r -> (e' < length el1)%nat).
+    { intros e' I. destruct L1 as [Len _]. rewrite <- Len. apply V. right. exact I. }
+    destruct (IH _ _ _ H V1) as [-> Hall]. split; [reflexivity|].
+    intros e' [<-|I]; [|apply Hall; exact I].
+    pose proof (run_seq_le _ prepare_elem_le _ _ _ _ H) as [_ L2].
+    destruct (L2 _ _ _ En) as [s2 [En2 O2]]. exists q, s2. split; [exact En2|].
+    eapply status_leb_trans; eassumption.
+Qed.
+
+(** a bulk compute that returns normally leaves every element it went through Computed *)
+Lemma run_seq_compute_unit (ids : list nat) :
+  forall el el',
+  run_seq compute_elem ids el = (el', OUnit) ->
+  forall e, In e ids -> exists q, nth_error el' e = Some (q, Computed).
+Proof.
+  induction ids as [|e r IH]; intros el el' H e' I; [destruct I|].
+  cbn [run_seq] in H. destruct (compute_elem e el) as [el1 o1] eqn:E.
+  destruct o1; try discriminate H.
+  destruct I as [<-|I]; [|eapply IH; eassumption].
+  assert (P1 : exists q, nth_error el1 e = Some (q, Computed)).
+  { unfold compute_elem in E. destruct (nth_error el e) as [[q s]|] eqn:En; [|discriminate E].
+    destruct s; inversion E; subst.
+    - exists q. apply nth_error_upd_same. apply nth_error_Some. congruence.
+    - exists q. exact En. }
+  destruct P1 as [q En]. pose proof (run_seq_le _ compute_elem_le _ _ _ _ H) as [_ L2].
+  destruct (L2 _ _ _ En) as [s2 [En2 O2]]. apply status_leb_Computed in O2. subst s2. exists q. exact En2.
+Qed.
+
+(** a bulk compute over elements that are all at least Prepared does not throw *)
+Lemma run_seq_compute_ok (ids : list nat) :
+  forall el,
+  (forall e, In e ids -> exists q s, nth_error el e = Some (q, s) /\ status_leb Prepared s = true) ->
+  snd (run_seq compute_elem ids el) = OUnit.
+Proof.
+  induction ids as [|e r IH]; intros el H; [reflexivity|].
+  cbn [run_seq]. destruct (compute_elem e el) as [el1 o1] eqn:E.
+  pose proof (compute_elem_le _ _ _ _ E) as [_ L1].
+  assert (o1 = OUnit) as ->.
+  { destruct (H e (or_introl eq_refl)) as [q [s [En O]]]. unfold compute_elem in E. rewrite En in E.
+    destruct s; inversion E; try reflexivity. discriminate O. }
+  apply IH. intros e' I. destruct (H e' (or_intror I)) as [q [s [En O]]].
+  destruct (L1 _ _ _ En) as [s1 [En1 O1]]. exists q, s1. split; [exact En1|].
+  eapply status_leb_trans; eassumption.
+Qed.
+
+(** the only exceptions of the element operations; Dangling needs a missing element *)
+Lemma run_seq_not_dangling (f : nat -> estore -> estore * cout) :
+  (forall e el el' o, f e el = (el', o) -> store_le el el') ->
+  (forall e el, (e < length el)%nat -> snd (f e el) <> OThrows Dangling) ->
+  forall ids el, (forall e, In e ids -> (e < length el)%nat) ->
+  snd (run_seq f ids el) <> OThrows Dangling.
+Proof.
+  intros Hle Hf. induction ids as [|e r IH]; intros el V; cbn [run_seq]; [discriminate|].
+  destruct (f e el) as [el1 o1] eqn:E.
+  pose proof (Hf e el (V e (or_introl eq_refl))) as N. rewrite E in N. cbn [snd] in N.
+  destruct (Hle _ _ _ _ E) as [Len _].
+  destruct o1; cbn [snd]; try exact N.
+  apply IH. intros e' I. rewrite <- Len. apply V. right. exact I.
+Qed.
+
+Lemma prepare_elem_not_dangling (e : nat) (el : estore) :
+  (e < length el)%nat -> snd (prepare_elem e el) <> OThrows Dangling.
+Proof.
+  intros H. unfold prepare_elem. destruct (nth_error el e) as [[q s]|] eqn:E.
+  - destruct s; discriminate.
+  - apply nth_error_None in E. lia.
+Qed.
+
+Lemma compute_elem_not_dangling (e : nat) (el : estore) :
+  (e < length el)%nat -> snd (compute_elem e el) <> OThrows Dangling.
+Proof.
+  intros H. unfold compute_elem. destruct (nth_error el e) as [[q s]|] eqn:E.
+  - destruct s; discriminate.
+  - apply nth_error_None in E. lia.
+Qed.
+
+(** * Layer 1: the generated tables *)
+
+Lemma nodupb_sound (l : list (nat * nat * nat * nat)) : nodupb l = true -> NoDup l.
+Proof.
+  induction l as [|a r IH]; cbn [nodupb]; intros H; [constructor|].
+  apply andb_true_iff in H. destruct H as [H1 H2]. constructor; [|apply IH; exact H2].
+  intros I. apply negb_true_iff in H1.
+  assert (E : existsb (quad_eqb a) r = true).
+  { apply existsb_exists. exists a. split; [exact I|apply quad_eqb_refl]. }
+  congruence.
+Qed.
+
+(** an entry is a permutation of 0..3 carrying the sign of its parity *)
+Definition perm_ok (p : perm4) : Prop :=
+  quad_in_range (fst p) = true /\ quad_distinct (fst p) = true /\ snd p = parity_sign (fst p).
+
+(** permutations4 (src/pomerol/Misc.cpp) consists of 24 distinct permutations of 0..3, each with the sign of its
+    parity: a complete finite check over the generated table. *)
+Theorem perm_table_correct :
+  length permutations4 = 24%nat /\ permutations4_declared_size = 24%nat /\
+  NoDup (map fst permutations4) /\ Forall perm_ok permutations4.
+Proof.
+  split; [vm_compute; reflexivity|]. split; [vm_compute; reflexivity|]. split.
+  - apply nodupb_sound. vm_compute. reflexivity.
+  - unfold permutations4. repeat (apply Forall_cons; [repeat split; vm_compute; reflexivity|]). apply Forall_nil.
+Qed.
+
+(** hence it lists every permutation of 0..3 *)
+Theorem perm_table_complete : forall p : nat * nat * nat * nat,
+  quad_in_range p = true -> quad_distinct p = true -> In p (map fst permutations4).
+Proof.
+  intros p R D.
+  assert (E : existsb (quad_eqb p) (map fst permutations4) = true).
+  { destruct p as [[[a b] c] d]. unfold quad_in_range in R.
+    rewrite !andb_true_iff, !Nat.ltb_lt in R. destruct R as [[[Ra Rb] Rc] Rd].
+    destruct a as [|[|[|[|a]]]]; try lia; destruct b as [|[|[|[|b]]]]; try lia;
+      destruct c as [|[|[|[|c]]]]; try lia; destruct d as [|[|[|[|d]]]]; try lia;
+        try (vm_compute in D; discriminate D); vm_compute; reflexivity. }
+  apply existsb_exists in E. destruct E as [x [I Ex]]. apply quad_eqb_eq in Ex. subst x. exact I.
+Qed.
+
+(** every index into permutations4 used by IndexContainer4::set is inside the table, the frequency array has
+    four entries and the argument slots are perm[0], perm[1], perm[2]: no read past an array in perm_eval *)
+Theorem table_reads_in_bounds :
+  (set_owner_perm_index < length permutations4)%nat /\
+  Forall (fun a => (snd a < length permutations4)%nat) set_aliases /\
+  (forall n1 n2 n3, length (freq_array n1 n2 n3) = 4%nat) /\
+  Forall (fun k => (k < 4)%nat) eval_arg_slots /\ length eval_arg_slots = 3%nat.
+Proof.
+  split; [vm_compute; lia|]. split.
+  - unfold set_aliases. repeat (apply Forall_cons; [vm_compute; lia|]). apply Forall_nil.
+  - split; [intros; reflexivity|]. split; [|reflexivity].
+    unfold eval_arg_slots. repeat (apply Forall_cons; [lia|]). apply Forall_nil.
+Qed.
+
+Section Tables.
+  Variable V : Type.
+  Variable vneg : V -> V.
+  Variable vscale : Z -> V -> V.
+  Variable chi : quad -> triple -> V.
+
+  (** what layer 2 needs to know about the tables: the entry made for the owner returns chi of the owner's key,
+      every alias entry returns chi of the alias key *)
+  Definition tables_ok : Prop :=
+    (forall q, entry_denotes V vscale chi (perm_at set_owner_perm_index) q q) /\
+    (forall req pos idx, In (req, pos, idx) set_aliases ->
+       forall q, alias_cond q req = true ->
+                 entry_denotes V vscale chi (perm_at idx) q (alias_key q pos)).
+
+  Hypothesis swap12 : swap12_law V vneg chi.
+  Hypothesis swap34 : swap34_law V vneg chi.
+  Hypothesis invol : neg_invol V vneg.
+  Hypothesis scale : scale_law V vneg vscale.
+
+  (** The alias table of IndexContainer4::set, with ElementWithPermFreq::operator(), implements
+      chi_jikl(w1,w2;w3) = -chi_ijkl(w2,w1;w3), chi_ijlk(w1,w2;w3) = -chi_ijkl(w1,w2;w1+w2-w3) and their composition. *)
+  Theorem alias_denotes : tables_ok.
+  Proof.
+    destruct scale as [S1 Sm]. split.
+    - intros [[[i j] k] l] [[n1 n2] n3].
+      cbv - [Z.add Z.sub Z.opp]. apply S1.
+    - intros req pos idx I [[[i j] k] l] C [[n1 n2] n3].
+      unfold set_aliases in I. cbn [In] in I.
+      destruct I as [I|[I|[I|[]]]]; inversion I; subst req pos idx; clear I C;
+        cbv - [Z.add Z.sub Z.opp].
+      + rewrite Sm. symmetry. apply swap12.
+      + rewrite Sm. symmetry. apply swap34.
+      + rewrite S1. rewrite (swap12 i j l k n1 n2 n3). rewrite (swap34 i j k l n2 n1 n3). rewrite invol.
+        replace (n2 + n1 - n3) with (n1 + n2 - n3) by lia. reflexivity.
+  Qed.
+End Tables.
+
+(** the hypotheses of [alias_denotes] are satisfiable by a chi that depends on all indices and all frequencies *)
+Example chi_example : exists (chi : quad -> triple -> Z),
+  swap12_law Z Z.opp chi /\ swap34_law Z Z.opp chi /\ neg_invol Z Z.opp /\ scale_law Z Z.opp Z.mul /\
+  chi (0, 1, 0, 1)%nat (1, 2, 3) <> chi (0, 1, 0, 1)%nat (2, 1, 3).
+Proof.
+  exists (fun q n =>
+            let '(i, j, k, l) := q in let '(w1, w2, w3) := n in
+            (Z.of_nat i * w2 - Z.of_nat j * w1) * (Z.of_nat k * (w1 + w2 - w3) - Z.of_nat l * w3)).
+  repeat split.
+  - intros i j k l w1 w2 w3. cbn beta iota. ring.
+  - intros i j k l w1 w2 w3. cbn beta iota. ring.
+  - intros v. apply Z.opp_involutive.
+  - intros v. destruct v; reflexivity.
+  - intros v. destruct v; reflexivity.
+  - vm_compute. discriminate.
+Qed.
